@@ -15,6 +15,7 @@ def run(ctx):
     tier, seed, log = ctx["tier"], ctx["seed"], ctx["log"]
     rnd = random.Random(seed * 41 + 3)
     import qrcode
+    from qrcode import util
     R = Res("get_matrix on symbols of versions 1..N x borders 0..8 in one process (fresh objects, objects compiled before, "
             "objects with data added after a compile, border changed between calls); P2: Model.getMatrix on the object's modules; "
             "P3: Spec.frame (pointwise definition) and centre = modules of a fresh object with the same data. "
@@ -38,7 +39,7 @@ def run(ctx):
                 if hist == "made":
                     q.make()
                 elif hist == "add-after-make":
-                    q.make(); q.add_data(extra, optimize=0); payload = data + extra; calls.append(extra)
+                    q.make(); q.add_data(util.QRData(extra) if len(extra) % 2 else extra, optimize=0); payload = data + extra; calls.append(extra)
                 elif hist == "border-changed":
                     q.border = (b + 2) % 7; q.get_matrix()
                 q.border = b
